@@ -77,6 +77,21 @@ def conv_tag(term, c):
         return "CvDecimal"
     if c is term._parseBoolean:
         return "CvBool"
+    import base64
+    import datetime as _dt
+    from rdflib import xsd_datetime
+    if c is term._unhexlify:
+        return "CvHex"
+    if c is base64.b64decode:
+        return "CvB64"
+    if c is float:
+        return "CvFloat"
+    if c is xsd_datetime.parse_xsd_date:
+        return "CvDate"      # rdflib's own wrapper around date.fromisoformat
+    if c == _dt.time.fromisoformat:
+        return "CvTime"
+    if c == _dt.datetime.fromisoformat:
+        return "CvDateTime"
     return "CvOther"
 
 
@@ -89,13 +104,14 @@ def split_iri(k):
     return 2, s
 
 
-PYTYPES = {"str": 0, "float": 1, "bool": 2, "int": 3, "Decimal": 4}
+PYTYPES = {"str": 0, "float": 1, "bool": 2, "int": 3, "Decimal": 4, "bytes": 5, "date": 6, "datetime": 7, "time": 8}
 
 
 def render(rdflib) -> str:
     term = rdflib.term
     out = []
-    out.append("Inductive conv := CvIdent | CvInt | CvDecimal | CvBool | CvOther.")
+    out.append("Inductive conv := CvIdent | CvInt | CvDecimal | CvBool | CvOther\n"
+               "  | CvHex | CvB64 | CvFloat | CvDate | CvTime | CvDateTime.")
     out.append("Inductive chk := CkByValue | CkUnknown | CkLex (accepted : list (list N))\n"
                "  | CkRange (lo hi : option Z) (nonempty : bool).")
     out.append("(* namespace tag: 0 = xsd, 1 = rdf, 2 = full IRI *)")
@@ -119,13 +135,17 @@ def render(rdflib) -> str:
             tag = 9
         d = "None" if dtype is None else f"(Some {cstr(split_iri(dtype)[1])})"
         rules.append(f"  ({tag}%N, {'true' if cast is not None else 'false'}, {d}) (* {ptype.__name__} *)")
-    out.append("(* python type tag: 0 str, 1 float, 2 bool, 3 int, 4 Decimal, 9 other *)")
+    out.append("(* python type tag: 0 str, 1 float, 2 bool, 3 int, 4 Decimal, 5 bytes, 6 date, 7 datetime, 8 time, 9 other *)")
     out.append("Definition generic_rules : list (N * bool * option (list N)) := [\n" + ";\n".join(rules) + "\n].")
     spec = []
     for (ptype, dtype), cast in term._SpecificPythonToXSDRules:
         tag = PYTYPES.get(ptype.__name__, 9)
-        spec.append(f"  ({tag}%N, {cstr(split_iri(dtype)[1])})")
-    out.append("Definition specific_rules : list (N * list N) := [\n" + ";\n".join(spec) + "\n].")
+        import base64 as _b64
+        import binascii as _ba
+        lx = 1 if cast is _ba.hexlify else 2 if cast is _b64.b64encode else 0
+        spec.append(f"  ({tag}%N, {cstr(split_iri(dtype)[1])}, {lx}%N)")
+    out.append("(* lexicaliser: 1 binascii.hexlify, 2 base64.b64encode, 0 something else *)")
+    out.append("Definition specific_rules : list (N * list N * N) := [\n" + ";\n".join(spec) + "\n].")
     out.append(f"Definition normalize_literals_default : bool := {'true' if rdflib.NORMALIZE_LITERALS else 'false'}.")
     # CPython character classes
     spaces = [c for c in range(sys.maxunicode + 1) if chr(c).isspace()]
